@@ -2,6 +2,8 @@
 C04 — infinite phase screen rows follow the exact conditional von Kármán law.
 Model: `Model/InfiniteCov.lean` (hand-written mirror of infinitephasescreen.py) and the T1-regenerated
 `Gen.phase_covariance`.
+§5b (counterpart of the Python clause `oracle_retune`): rebuilding the matrices after `r0 → c·r0` leaves `A` unchanged and multiplies
+`B·Bᵀ` by `c^(-5/3)` (`retune_A_invariant`, `retune_A_of_contract`, `retune_BBt_scales`, `retune_model`, `retune_r0_model`).
 -/
 import Mathlib.Tactic.Ring
 import Mathlib.Tactic.Linarith
@@ -543,6 +545,122 @@ theorem H2_of_kernel (nz nx : ℕ) (S : ℕ → ℕ → ℝ) {E : Type} [NormedA
     ext i j
     rcases i with i | i <;> rcases j with j | j <;> simp [toM, blockZZ, blockZX, blockXZ, blockXX, gram_apply, h]
   rw [he]; exact hg
+
+/-! ## 5b. Re-tuning: the matrices rebuilt after `r0 → c·r0` (all sizes, any stencil)
+
+`make_covmats(); makeAMatrix(); makeBMatrix()` called again on an existing screen after `r0` was replaced by `c·r0`:
+every covariance entry is multiplied by `s = c^(-5/3)`, hence `A` is unchanged and `B·Bᵀ` is multiplied by `s`. -/
+
+/-- **retune_A_invariant.**  If every covariance entry is multiplied by `s ≠ 0`: `s⁻¹ • inv` is the (two-sided) inverse of the scaled
+`Σzz`, and the `A` built from the scaled blocks with it is the old `A`. -/
+theorem retune_A_invariant {nz nx : ℕ} (s : ℝ) (hs : s ≠ 0) (zz inv : Matrix (Fin nz) (Fin nz) ℝ)
+    (xz : Matrix (Fin nx) (Fin nz) ℝ) (hinv : zz * inv = 1) (hinv' : inv * zz = 1) :
+    (s • xz) * (s⁻¹ • inv) = xz * inv ∧ (s • zz) * (s⁻¹ • inv) = 1 ∧ (s⁻¹ • inv) * (s • zz) = 1 := by
+  refine ⟨?_, ?_, ?_⟩
+  · rw [Matrix.smul_mul, Matrix.mul_smul, smul_smul, mul_inv_cancel₀ hs, one_smul]
+  · rw [Matrix.smul_mul, Matrix.mul_smul, smul_smul, mul_inv_cancel₀ hs, one_smul, hinv]
+  · rw [Matrix.smul_mul, Matrix.mul_smul, smul_smul, inv_mul_cancel₀ hs, one_smul, hinv']
+
+/-- … and the inverse is unique: WHATEVER matrix `inv'` the Cholesky solve returns for the scaled `Σzz` under its contract
+`(s • Σzz) · inv' = I`, it is `s⁻¹ • inv`, and the rebuilt `A' = (s • Σxz) · inv'` equals the old `A = Σxz · inv`. -/
+theorem retune_A_of_contract {nz nx : ℕ} (s : ℝ) (hs : s ≠ 0) (zz inv inv' : Matrix (Fin nz) (Fin nz) ℝ)
+    (xz : Matrix (Fin nx) (Fin nz) ℝ) (hinv : zz * inv = 1) (hinv' : (s • zz) * inv' = 1) :
+    inv' = s⁻¹ • inv ∧ (s • xz) * inv' = xz * inv := by
+  have h := retune_A_invariant s hs zz inv xz hinv (mul_eq_one_comm.mp hinv)
+  have e : inv' = s⁻¹ • inv := by
+    rw [← Matrix.inv_eq_right_inv hinv', ← Matrix.inv_eq_right_inv h.2.1]
+  exact ⟨e, by rw [e]; exact h.1⟩
+
+/-- **retune_BBt_scales.**  With `A` unchanged, the matrix handed to the SVD (`BBt = Σxx − A Σzx`, whose square-root factor is `B`)
+built from the scaled blocks is `s` times the old one. -/
+theorem retune_BBt_scales {nz nx : ℕ} (s : ℝ) (xx : Matrix (Fin nx) (Fin nx) ℝ) (A : Matrix (Fin nx) (Fin nz) ℝ)
+    (zx : Matrix (Fin nz) (Fin nx) ℝ) : (s • xx) - A * (s • zx) = s • (xx - A * zx) := by
+  rw [Matrix.mul_smul, smul_sub]
+
+/-- an array whose entries are all multiplied by `s`, as a matrix -/
+theorem toM_smul (r c : ℕ) (f f' : ℕ → ℕ → ℝ) (s : ℝ) (h : ∀ i j, f' i j = s * f i j) : toM r c f' = s • toM r c f := by
+  ext i j
+  simp [toM, h]
+
+/-- **retune_model.**  For the arrays the model of `make_covmats / makeAMatrix` builds (any stencil `pos`, sizes, pixel scale,
+rounding hook): if the covariance function is replaced by `s` times itself (`s ≠ 0`) and both Cholesky solves meet their contract,
+the rebuilt `A_mat` is the old one and the rebuilt `BBt` is `s` times the old one; consequently, whenever `B`, `B'` are square-root
+factors of the two (`B Bᵀ = BBt`, the conclusion of `B_eq`), `B' B'ᵀ = s • B Bᵀ`. -/
+theorem retune_model (nz nx : ℕ) (cov cov' r32 : ℝ → ℝ) (s : ℝ) (hs : s ≠ 0) (h : ∀ r, cov' r = s * cov r)
+    (px : ℝ) (pos : ℕ → Int × Int) (inv inv' : ℕ → ℕ → ℝ)
+    (hinv : toM nz nz (blockZZ (covMat cov r32 px pos) nz) * toM nz nz inv = 1)
+    (hinv' : toM nz nz (blockZZ (covMat cov' r32 px pos) nz) * toM nz nz inv' = 1) :
+    toM nx nz (aMat nz (blockXZ (covMat cov' r32 px pos) nz) inv')
+        = toM nx nz (aMat nz (blockXZ (covMat cov r32 px pos) nz) inv) ∧
+    toM nx nx (bbt nz (blockXX (covMat cov' r32 px pos) nz) (aMat nz (blockXZ (covMat cov' r32 px pos) nz) inv')
+          (blockZX (covMat cov' r32 px pos) nz))
+        = s • toM nx nx (bbt nz (blockXX (covMat cov r32 px pos) nz) (aMat nz (blockXZ (covMat cov r32 px pos) nz) inv)
+          (blockZX (covMat cov r32 px pos) nz)) ∧
+    ∀ B B' : Matrix (Fin nx) (Fin nx) ℝ,
+      B * Bᵀ = toM nx nx (bbt nz (blockXX (covMat cov r32 px pos) nz) (aMat nz (blockXZ (covMat cov r32 px pos) nz) inv)
+          (blockZX (covMat cov r32 px pos) nz)) →
+      B' * B'ᵀ = toM nx nx (bbt nz (blockXX (covMat cov' r32 px pos) nz) (aMat nz (blockXZ (covMat cov' r32 px pos) nz) inv')
+          (blockZX (covMat cov' r32 px pos) nz)) →
+      B' * B'ᵀ = s • (B * Bᵀ) := by
+  have ezz : toM nz nz (blockZZ (covMat cov' r32 px pos) nz) = s • toM nz nz (blockZZ (covMat cov r32 px pos) nz) :=
+    toM_smul _ _ _ _ s (fun _ _ => h _)
+  have exz : toM nx nz (blockXZ (covMat cov' r32 px pos) nz) = s • toM nx nz (blockXZ (covMat cov r32 px pos) nz) :=
+    toM_smul _ _ _ _ s (fun _ _ => h _)
+  have ezx : toM nz nx (blockZX (covMat cov' r32 px pos) nz) = s • toM nz nx (blockZX (covMat cov r32 px pos) nz) :=
+    toM_smul _ _ _ _ s (fun _ _ => h _)
+  have exx : toM nx nx (blockXX (covMat cov' r32 px pos) nz) = s • toM nx nx (blockXX (covMat cov r32 px pos) nz) :=
+    toM_smul _ _ _ _ s (fun _ _ => h _)
+  rw [ezz] at hinv'
+  have hA : toM nx nz (aMat nz (blockXZ (covMat cov' r32 px pos) nz) inv')
+      = toM nx nz (aMat nz (blockXZ (covMat cov r32 px pos) nz) inv) := by
+    rw [aMat_eq_mul, aMat_eq_mul, exz]
+    exact (retune_A_of_contract s hs _ _ _ _ hinv hinv').2
+  have hQ : toM nx nx (bbt nz (blockXX (covMat cov' r32 px pos) nz) (aMat nz (blockXZ (covMat cov' r32 px pos) nz) inv')
+        (blockZX (covMat cov' r32 px pos) nz))
+      = s • toM nx nx (bbt nz (blockXX (covMat cov r32 px pos) nz) (aMat nz (blockXZ (covMat cov r32 px pos) nz) inv)
+        (blockZX (covMat cov r32 px pos) nz)) := by
+    rw [bbt_eq_sub, bbt_eq_sub, hA, exx, ezx]
+    exact retune_BBt_scales s _ _ _
+  refine ⟨hA, hQ, ?_⟩
+  intro B B' hB hB'
+  rw [hB', hQ, hB]
+
+/-- `r0 → c·r0` multiplies the library's covariance function (`turb.phase_covariance`, regenerated by T1) by `c^(-5/3)` at every
+separation, for every `kv` (the same statement as `Props/C08.r0_scaling_cov`, proved here from the regenerated definition so that the
+check of C04 depends on no other property's file) -/
+theorem phase_covariance_r0_scaling (c r r0 L0 : ℝ) (hc : 0 < c) (hr0 : 0 < r0) (hL : 0 < L0) :
+    Gen.phase_covariance r (c * r0) L0 = c ^ ((-5:ℝ)/3) * Gen.phase_covariance r r0 L0 := by
+  have ha : (L0 / (c * r0)) ^ ((5:ℝ)/3) = c ^ ((-5:ℝ)/3) * (L0 / r0) ^ ((5:ℝ)/3) := by
+    rw [show L0 / (c * r0) = c⁻¹ * (L0 / r0) by field_simp, Real.mul_rpow (by positivity) (by positivity),
+      Real.inv_rpow hc.le, ← Real.rpow_neg hc.le]
+    norm_num
+  real_unfold [Gen.phase_covariance]
+  rw [ha]
+  ring
+
+/-- **retune_r0_model.**  The library's model at `c·r0` (c, r0, L0 > 0): every covariance entry is `c^(-5/3)` times the entry at `r0`;
+hence, under the Cholesky-solve contract for both builds, the rebuilt `A_mat` is unchanged, the rebuilt `BBt` is `c^(-5/3)` times the
+old one, and `B' B'ᵀ = c^(-5/3) • B Bᵀ` for any square-root factors of the two (what `oracle_retune` measures on the real code). -/
+theorem retune_r0_model (nz nx : ℕ) (c r0 L0 px : ℝ) (hc : 0 < c) (hr0 : 0 < r0) (hL : 0 < L0) (pos : ℕ → Int × Int)
+    (inv inv' : ℕ → ℕ → ℝ) :
+    let S := covMat (fun r => Gen.phase_covariance r r0 L0) id px pos
+    let S' := covMat (fun r => Gen.phase_covariance r (c * r0) L0) id px pos
+    toM nz nz (blockZZ S nz) * toM nz nz inv = 1 →
+    toM nz nz (blockZZ S' nz) * toM nz nz inv' = 1 →
+    (∀ i j, S' i j = c ^ ((-5:ℝ)/3) * S i j) ∧
+    toM nx nz (aMat nz (blockXZ S' nz) inv') = toM nx nz (aMat nz (blockXZ S nz) inv) ∧
+    toM nx nx (bbt nz (blockXX S' nz) (aMat nz (blockXZ S' nz) inv') (blockZX S' nz))
+      = c ^ ((-5:ℝ)/3) • toM nx nx (bbt nz (blockXX S nz) (aMat nz (blockXZ S nz) inv) (blockZX S nz)) ∧
+    ∀ B B' : Matrix (Fin nx) (Fin nx) ℝ,
+      B * Bᵀ = toM nx nx (bbt nz (blockXX S nz) (aMat nz (blockXZ S nz) inv) (blockZX S nz)) →
+      B' * B'ᵀ = toM nx nx (bbt nz (blockXX S' nz) (aMat nz (blockXZ S' nz) inv') (blockZX S' nz)) →
+      B' * B'ᵀ = c ^ ((-5:ℝ)/3) • (B * Bᵀ) := by
+  intro S S' hinv hinv'
+  have hs : c ^ ((-5:ℝ)/3) ≠ 0 := (Real.rpow_pos_of_pos hc _).ne'
+  have h : ∀ r, (fun r => Gen.phase_covariance r (c * r0) L0) r = c ^ ((-5:ℝ)/3) * (fun r => Gen.phase_covariance r r0 L0) r :=
+    fun r => phase_covariance_r0_scaling c r r0 L0 hc hr0 hL
+  refine ⟨fun i j => ?_, retune_model nz nx _ _ id _ hs h px pos inv inv' hinv hinv'⟩
+  exact h _
 
 /-! ## 6. Fried variant: a constant added to the screen is added to the new row -/
 
